@@ -10,7 +10,7 @@ META = {
     "technique": "Coq proof: per-macro model of lib.rs with explicit checked-operator primitives and a build-profile parameter; scalar lemmas (wrapping add, rotate, shift-or rotate, mask/shift swap by a finite bit-position sweep) lifted lane-wise; differential correspondence impl = model = spec for every public method in debug and release builds",
     "level_text": "Machine-checked theorems (Props/C19.v) about the model of every public method of u32x4, u64x4, u128x1, u128x2, u32x4x4: for all operands in the stated domain and both build profiles the model returns normally and equals the independent scalar lane-wise specification. Implementation = model (outcome ok/panic and every lane, also outside the domain) and implementation = spec (inside the domain) are checked on generated cases in a debug (overflow checks, debug assertions) and a release build. Any combination of overflow-checks / debug-assertions: C19_two_switch_reduction / _diagonal / _transfer, C19_model_eq_spec_any_switches, C19_total_any_switches (no method consults both switches, so the four combinations reduce method by method to the two modelled profiles; the outside-domain behaviours are pinned per switch: C19_outside_*_by_overflow_checks / _by_debug_assertions).",
     "level_note": "Trusted: Coq kernel+VM; the scalar spec Spec/NullLanes.v (anchored by Examples); hand-written model tied on generated cases only; harness. One switch profile := Debug | Release drives both overflow checks and debug assertions (the two cargo profiles); release + overflow-checks and dev without them are not separate cases of the model. No axioms.",
-    "rule": "cases = (type, method, self lanes, second operand / slice, scalar argument) for all 71 (type, method) pairs: fixed patterns (zero, all-ones, byte-index, alternating), walking-one over every bit of the vector (exhaustive basis), walking-zero, carry chains (MAX+1 per lane, single carrying lane, longest chain ending at each bit), seeded random; rotation amounts 0..bits and beyond u32; every lane index plus out-of-range ones (n, n+1, 7, 256, 257, 2^32-1; for the usize indices of u32x4/u64x4 also 2^32, 2^32+1, 2^63+2, which a narrowing cast would fold back into range; for the u32 indices 2^16, 2^31); slices of wrong length; the constructed value of every type is read back through an explicit Clone::clone. distinct = distinct (type, method, a, b, i); non-trivial = some operand word or the scalar argument non-zero. Outcome (ok|panic) and all lanes compared with the model on every case and with the spec on every in-domain case inside coqc. Source scan: the public surface of ppv-null/src/lib.rs (pub fn, impl .. for, instantiations of the defining macros, other pub items) is compared with the pinned list; a difference is recorded in the evidence (informational only: a textual difference of macro-generated source says nothing about behaviour, and a harmless macro restructuring produced one).",
+    "rule": "cases = (type, method, self lanes, second operand / slice, scalar argument) for all 71 (type, method) pairs: fixed patterns (zero, all-ones, byte-index, alternating), walking-one over every bit of the vector (exhaustive basis), walking-zero, carry chains (MAX+1 per lane, single carrying lane, longest chain ending at each bit), seeded random; rotation amounts 0..bits and beyond u32; every lane index plus out-of-range ones (n, n+1, 7, 256, 257, 2^32-1; for the usize indices of u32x4/u64x4 also 2^32, 2^32+1, 2^63+2, which a narrowing cast would fold back into range; for the u32 indices 2^16, 2^31); slices of wrong length; the constructed value of every type is read back through an explicit Clone::clone. distinct = distinct (type, method, a, b, i); non-trivial = some operand word or the scalar argument non-zero. Outcome (ok|panic) and all lanes compared with the model on every case and with the spec on every in-domain case inside coqc. Trait probe: the harness asks the compiler which core::ops / marker traits each of the five types implements; an implementation outside the pinned table is reported (an operation outside the model). Source scan: the public surface of ppv-null/src/lib.rs (pub fn, impl .. for, instantiations of the defining macros, other pub items) is compared with the pinned list; a difference of the source TEXT is recorded in the evidence (informational only: a textual difference of macro-generated source says nothing about behaviour, and a harmless macro restructuring produced one).",
     "assumptions": ["little-endian host is irrelevant here (no byte views in ppv-null)",
                     "the two modelled build profiles are: overflow checks + debug assertions both on (dev), both off (release); the harness refuses to run in a mixed configuration"],
 }
@@ -95,3 +95,24 @@ def run(ctx):
                            "note": "harness exercised %s (type, method) pairs, the modelled public surface has 71 (C19_surface)"
                                    % s.get("methods_exercised")}, no_input=True)
         vlib.decide_absolute(ctx, s, explain="explain_c19", theorem="C19_model_eq_spec")
+        # operator / marker traits each type implements, decided by the compiler inside the harness (a trait probe, not a
+        # reading of source text): an operator implementation that is not in this table is a public operation of ppv-null that
+        # neither the model (71 (type, method) pairs) nor any run covers - e.g. an `impl Add for u128x1` written with plain `+`
+        got = s.get("implemented_traits")
+        if profile == "debug" and isinstance(got, dict):
+            extra = {t: sorted(set(v) - set(EXPECTED_TRAITS.get(t, []))) for t, v in got.items()}
+            extra = {t: v for t, v in extra.items() if v}
+            if extra:
+                ctx.violation({"kind": "operation-outside-the-model", "added_trait_impls": extra,
+                               "note": "ppv-null implements operator traits for its vector types that Model/PpvNull.v does not model and "
+                                       "the harness does not call; the property quantifies over every public method (no input is derived: "
+                                       "the new operation has no model to compare with)"}, no_input=True)
+
+
+# as of the pinned tree (compiler-decided, see h_ppvnull.rs `implemented_traits_json`)
+_V4 = ["Add", "BitAnd", "BitOr", "BitXor", "AddAssign", "BitXorAssign", "Clone", "Copy", "RotateWordsRight", "SplatRotateRight"]
+EXPECTED_TRAITS = {
+    "u32x4": _V4, "u64x4": _V4, "u32x4x4": _V4,
+    "u128x1": ["Not", "BitAnd", "BitXor", "AddAssign", "BitXorAssign", "Clone", "Copy"],
+    "u128x2": ["Not", "BitAnd", "BitOr", "AddAssign", "BitXorAssign", "Clone", "Copy"],
+}
